@@ -29,13 +29,21 @@ type LimitCfg struct {
 	Queue         string  `json:"queue,omitempty"` // "" (library default) | fixed:k | sqrt:k | log10:k
 	LongWindow    int     `json:"long_window,omitempty"`
 	NoLoad        string  `json:"no_load,omitempty"` // vegas: caller-supplied baseline measurement: "" (default minimum) | single | expavg
-	Windowed      bool    `json:"windowed,omitempty"`
-	Traced        bool    `json:"traced,omitempty"`
-	WinSize       int32   `json:"win_size,omitempty"`
-	WinMin        int64   `json:"win_min,omitempty"`
-	WinMax        int64   `json:"win_max,omitempty"`
-	WinThreshold  int64   `json:"win_threshold,omitempty"`
-	JitterSeed    int64   `json:"jitter_seed"`
+	// vegas: caller-supplied policy functions (documented constructor options); "" = library default.
+	// int ones (alpha, beta, threshold): "k:N" constant N | "log:M" M*log10-root(limit).
+	// float ones (increase, decrease): half | dbl | sub:K | add:K | zero | same.
+	VAlpha       string `json:"v_alpha,omitempty"`
+	VBeta        string `json:"v_beta,omitempty"`
+	VThr         string `json:"v_thr,omitempty"`
+	VInc         string `json:"v_inc,omitempty"`
+	VDec         string `json:"v_dec,omitempty"`
+	Windowed     bool   `json:"windowed,omitempty"`
+	Traced       bool   `json:"traced,omitempty"`
+	WinSize      int32  `json:"win_size,omitempty"`
+	WinMin       int64  `json:"win_min,omitempty"`
+	WinMax       int64  `json:"win_max,omitempty"`
+	WinThreshold int64  `json:"win_threshold,omitempty"`
+	JitterSeed   int64  `json:"jitter_seed"`
 }
 
 // Sample is one OnSample call.
@@ -43,7 +51,7 @@ type Sample struct {
 	Start int64  `json:"start,omitempty"`
 	RTT   int64  `json:"rtt"`
 	Inf   int    `json:"inf"`
-	Rel   string `json:"rel,omitempty"` // "" = Inf is absolute; half | eq | dbl = relative to the reported estimate at that moment
+	Rel   string `json:"rel,omitempty"` // "" = Inf is absolute; third | half | eq | dbl = relative to the reported estimate at that moment
 	Drop  bool   `json:"drop,omitempty"`
 }
 
@@ -55,6 +63,8 @@ func (s Sample) inflight(est int) int {
 	switch s.Rel {
 	case "half":
 		return est / 2
+	case "third":
+		return est / 3
 	case "eq":
 		return est
 	case "dbl":
@@ -79,6 +89,56 @@ func queueFunc(spec string) func(int) int {
 		return functions.Log10RootFunction(k)
 	}
 	panic("bad queue spec " + spec)
+}
+
+// vegasIntFn / vegasFloatFn decode the caller-supplied Vegas policy functions of LimitCfg.
+func vegasIntFn(spec string) func(int) int {
+	var k int
+	switch {
+	case spec == "":
+		return nil
+	case scan(spec, "k:%d", &k):
+		return func(int) int { return k }
+	case scan(spec, "log:%d", &k):
+		lg := functions.Log10RootFunction(0)
+		return func(l int) int { return k * lg(l) }
+	}
+	panic("bad vegas int fn " + spec)
+}
+
+func vegasFloatFn(spec string) func(float64) float64 {
+	var k int
+	switch {
+	case spec == "":
+		return nil
+	case spec == "half":
+		return func(l float64) float64 { return l / 2 }
+	case spec == "dbl":
+		return func(l float64) float64 { return l * 2 }
+	case spec == "zero":
+		return func(float64) float64 { return 0 }
+	case spec == "same":
+		return func(l float64) float64 { return l }
+	case scan(spec, "sub:%d", &k):
+		return func(l float64) float64 { return l - float64(k) }
+	case scan(spec, "add:%d", &k):
+		return func(l float64) float64 { return l + float64(k) }
+	}
+	panic("bad vegas float fn " + spec)
+}
+
+func genVegasFns(t *rapid.T, c *LimitCfg) {
+	intFn := rapid.OneOf(rapid.Just(""), rapid.Just(""), rapid.Custom(func(t *rapid.T) string {
+		if rapid.Bool().Draw(t, "const") {
+			return fmt.Sprintf("k:%d", rapid.IntRange(0, 12).Draw(t, "k"))
+		}
+		return fmt.Sprintf("log:%d", rapid.IntRange(0, 8).Draw(t, "m"))
+	}))
+	floatFn := rapid.OneOf(rapid.Just(""), rapid.SampledFrom([]string{"half", "dbl", "zero", "same"}), rapid.Custom(func(t *rapid.T) string {
+		return fmt.Sprintf("%s:%d", rapid.SampledFrom([]string{"sub", "add"}).Draw(t, "op"), rapid.IntRange(1, 40).Draw(t, "k"))
+	}))
+	c.VAlpha, c.VBeta, c.VThr = intFn.Draw(t, "valpha"), intFn.Draw(t, "vbeta"), intFn.Draw(t, "vthr")
+	c.VInc, c.VDec = floatFn.Draw(t, "vinc"), floatFn.Draw(t, "vdec")
 }
 
 func scan(s, f string, p *int) bool { n, err := fmt.Sscanf(s, f, p); return err == nil && n == 1 }
@@ -136,7 +196,7 @@ func buildLimit(c LimitCfg, reg core.MetricRegistry) built {
 		case "expavg":
 			noLoad = measurements.NewExponentialAverageMeasurement(20, 3)
 		}
-		inner = limit.NewVegasLimitWithRegistry("t", c.Initial, noLoad, c.Max, c.Smoothing, nil, nil, nil, nil, nil, c.ProbeMult, nil, reg)
+		inner = limit.NewVegasLimitWithRegistry("t", c.Initial, noLoad, c.Max, c.Smoothing, vegasIntFn(c.VAlpha), vegasIntFn(c.VBeta), vegasIntFn(c.VThr), vegasFloatFn(c.VInc), vegasFloatFn(c.VDec), c.ProbeMult, nil, reg)
 	case "gradient":
 		inner = limit.NewGradientLimitWithRegistry("t", c.Initial, c.Min, c.Max, c.Smoothing, queueFunc(c.Queue), c.RTTTol, c.ProbeInterval, nil, reg)
 	case "gradient2":
